@@ -293,6 +293,9 @@ def cache_wrapper_obligation(prog, enums, structs):
         names = structs["DNSPkt"][0]
         vals = {n: Opaque("unused") for n in names}
         vals.update(question=question, edns_do=Bool(do), cd=Bool(cd), rd=Bool(z3.Bool("rd")), qid=BV(z3.BitVec("qid", 16)))
+        for flag in ("tc", "aa", "qr", "ad", "ra"):       # every other header bit is an independent symbolic value too
+            if flag in vals:
+                vals[flag] = Bool(z3.Bool("hdr_" + flag))
         pkt = Adt("DNSPkt", None, [vals[n] for n in names], list(names))
         mnames = [f for f in structs["DnsMessage"] if "in_query" in f][0]
         mvals = {n: Opaque("unused") for n in mnames}
